@@ -726,3 +726,27 @@ def _ber_retagged_recursive_explicit(env, mod, t, v, codec):
             if a2.t.tag is not None and tagging.tag_mode(env, a2.t.tag, m2, a2.t) == 'EXPLICIT':
                 return True
     return False
+
+
+@carve('implicit-tag-over-tagged-reference-to-choice-made-explicit', ['C03'])
+def _implicit_over_tagged_choice_ref(env, mod, t, v, codec):
+    """A component tag without EXPLICIT/IMPLICIT keyword (or an automatic tag) on a reference whose chain carries a tag and ends
+    in a CHOICE."""
+    if codec not in ('der', 'ber'):
+        return False
+    for r in _constructed_nodes(env, mod, t):
+        auto = tagging.component_autotags(env, r.mod, r.base)
+        for c in all_comps(r.base):
+            if c.t.kind != 'REF':
+                continue
+            own = c.t.tag
+            if own is None and c.name not in auto:
+                continue
+            if own is not None and own.mode:
+                continue
+            cr = env.res(r.mod, c.t)
+            if cr.base.kind != 'CHOICE':
+                continue
+            if len(cr.tags) > (1 if own is not None else 0):
+                return True
+    return False
